@@ -84,8 +84,10 @@ def sweep(ctx: Ctx):
     for cls in (rng.sample(flips, 24) if q else flips) + (rng.sample(lens, 12) if q else lens) + types + others + (rng.sample(lentypes, 6) if q else lentypes) + (rng.sample(cuts, 8) if q else cuts):
         plan.append((rng.choice(["implicit_expired", "implicit_closed"]), cls))
     splits = [f"split:{n}" for n in range(1, 72)]
-    for cls in (rng.sample(splits, 24) if q else splits):
+    for cls in (sorted(set(rng.sample(splits, 20) + ["split:1", "split:2", "split:7", "split:8", "split:9", "split:40", "split:71"])) if q else splits):
         plan.append((rng.choice(["first", "first", "expired", "live", "implicit_expired", "implicit_closed"]), cls))
+        if cls == "split:1":
+            plan.append(("first", cls))
     for cls in (rng.sample(flips, 48) if q else flips) + (rng.sample(lens, 24) if q else lens) + types + others + (rng.sample(lentypes, 5) if q else lentypes) + (rng.sample(cuts, 10) if q else cuts):
         plan.append(("expired", cls))
         if not q or rng.random() < 0.4:
